@@ -283,6 +283,10 @@ def gen_plan(seed, tier="quick", variant=None):
         ops.append({"op": "stop", "on": [what, k], "delay": rng.choice([0.01, 0.03])})
         ops.append({"t": round(1.0 + rng.random(), 6), "op": "start", "start": rng.choice(["latest", "latest", "num"]), "start_rel": 0})
         proc = []
+    if cons["group"] and any(o["op"] == "commit" for o in ops) and rng.random() < 0.5:
+        # the application reacting to the result of a commit() from inside that Deferred's callback
+        for _ in range(rng.choice([1, 1, 2])):
+            ops.append({"op": rng.choice(["stop", "stop", "commit", "commit", "shutdown"]), "on": ["commit_result", rng.randint(0, 2)]})
     t_faults_end = round(max([horizon * 2.2] + [f["t"] for f in faults if "t" in f] + [o["t"] for o in ops if "t" in o]) + 0.01, 6)
     plan = {"family": FAMILY, "seed": seed, "tier": tier, "cfg": cfg, "log": log, "ops": ops, "proc": proc, "faults": faults,
             "t_faults_end": t_faults_end}
@@ -441,11 +445,11 @@ def _run(w, plan):
     proc_spec = {}
     for p in plan["proc"]:
         proc_spec.setdefault(p["n"], p)
-    triggers = {"proc": {}, "fetch": {}, "commit": {}}
+    triggers = {"proc": {}, "fetch": {}, "commit": {}, "commit_result": {}}
     for o in plan["ops"]:
         if "on" in o:
             triggers[o["on"][0]].setdefault((o["on"][1],) + tuple(o["on"][2:]), []).append(o)
-    counters = {"fetch": 0, "commit": 0}
+    counters = {"fetch": 0, "commit": 0, "commit_result": 0}
 
     def on_request(entry):
         if entry["key"] == kwire.FETCH:
@@ -755,7 +759,15 @@ def _run(w, plan):
             sim.record("op", "commit", inc.n)
             sim.mark("op", "commit")
             d = c.commit()
-            cw = watch(d, "commit#%d.%d" % (inc.n, len(inc.commit_ws)), sim, keep_failure=True)
+            j = counters["commit_result"]
+            counters["commit_result"] += 1
+
+            def on_commit_result(_w, j=j):
+                for o2 in triggers["commit_result"].pop((j,), ()):
+                    res.probe("op_from_inside_a_commit_callback_" + o2["op"])
+                    do_op(o2)
+
+            cw = watch(d, "commit#%d.%d" % (inc.n, len(inc.commit_ws)), sim, on_fire=on_commit_result, keep_failure=True)
             cw.lpo = c.last_processed_offset
             inc.commit_ws.append(cw)
         elif kind == "kill":
@@ -878,11 +890,17 @@ def _run(w, plan):
                 return sv["error"] == 0 and sv["offset"] >= part.leo and e["t"] > plan["t_faults_end"]
         return False
 
-    while sim.now < tail and not sim.overrun and not sim.livelock and res.harness_error is None:
+    # (a consumer polling at a short fixed interval - behind a permanently damaged message, say - would use up the event
+    # budget before the tail ends: the tail then ends early, leaving enough events for the final stop and close)
+    tail_budget = int(sim.max_events * 0.7)
+    while sim.now < tail and not sim.overrun and not sim.livelock and res.harness_error is None and sim.events_run < tail_budget:
         run_until(sim.now + 2.0)
         if caught_up() and sim.now > plan["t_faults_end"] + 3.0:
             break
     state["t_tail_end"] = sim.now
+    state["tail_cut"] = sim.now < tail and sim.events_run >= tail_budget
+    if state["tail_cut"]:
+        res.probe("tail_ended_early_on_event_budget")
     final_inc = state["inc"]
     live_tail = None
     if final_inc is not None and final_inc.alive:
@@ -1013,7 +1031,7 @@ def _oracles(w, plan, res, incs, part, state, corrupted, live_tail):
                     # the offset-reset policy firing is a permitted discontinuity. The out-of-range answer may pre-date
                     # the previous delivery (a reply parked behind slow processing), so it is matched by count: each
                     # discontinuity consumes out-of-range answers served to this consumer in this session so far.
-                    served_oor = sum(1 for t, q, pid in oor_events if pid == inc.pid and q >= s["seq"] and t <= rec["t"])
+                    served_oor = sum(1 for t, q, pid in oor_events if pid == inc.pid and q >= s["seq"] and q <= rec["seq"])
                     if cc["reset"] is not None and served_oor > s.get("oor_used", 0):
                         s["oor_used"] = served_oor
                         res.probe("reset_policy_fired")
@@ -1084,8 +1102,8 @@ def _oracles(w, plan, res, incs, part, state, corrupted, live_tail):
             reached = (bool(dl) and dl[-1][0] >= last) or bool(at_end)
             nothing_expected = (s["start_kind"] == "latest" and not dl and not _appended_after(sim, s)) or \
                 (not dl and _start_beyond_end(s, part))
-            if not reached and not nothing_expected and not s["pending_at_tail"]:
-                waited = state["t_tail_end"] - (state["t_heal"] or plan["t_faults_end"])
+            waited = state["t_tail_end"] - (state["t_heal"] or plan["t_faults_end"])
+            if not reached and not nothing_expected and not s["pending_at_tail"] and not (state.get("tail_cut") and waited < 15.0):
                 sig = "C02:not-caught-up-after-faults-ended"
                 res.violate("C02", sig, "%.0f s after the last fault the consumer has delivered up to %r, log ends at %d" % (
                     waited, dl[-1][0] if dl else None, last))
@@ -1130,10 +1148,18 @@ def _check_first(w, res, inc, s, d, by_off, offsets_sorted, listoff, offfetch, f
     if kind == "num":
         resolved = s["start_offset"]
     else:
-        # the answer the cluster actually gave this consumer first in this session
+        # the answer the cluster gave this consumer in this session.  A lookup the client had given up on (request
+        # timeout) is answered too, and that answer is discarded; the retry's answer is the one acted on - so when the
+        # position was looked up again before the first fetch, only the last lookup counts.
         cands = listoff if kind in ("earliest", "latest") else offfetch
-        for e in cands:
-            if e["pid"] != inc.pid or e["logseq"] < s["seq"] or e.get("delivered_seq") is None or e.get("act") == "garbage":
+        mine = [e for e in cands if e["pid"] == inc.pid and e["logseq"] >= s["seq"]]
+        first_fetch = min([c["seq"] for c in s["calls"] if c["name"] == "send_fetch_request"] or [float("inf")])
+        before = [e for e in mine if e["logseq"] < first_fetch]
+        if len(before) > 1:
+            mine = before[-1:]
+            res.probe("start_position_looked_up_again_before_first_fetch")
+        for e in mine:
+            if e.get("delivered_seq") is None or e.get("act") == "garbage":
                 continue
             if kind in ("earliest", "latest"):
                 p = e["resp_body"]["topics"][0]["partitions"][0]
